@@ -54,7 +54,7 @@ m("c07_bad_fabric_accepted", "C07", "core.py", '        raise ValueError(f"unsup
 # C08 ----------------------------------------------------------------------------------
 m("c08_first_fraction", "C08", "minerals.py", 'params["phase_assemblage"].index(self.phase)\n                ]', "0\n                ]")
 m("c08_position_lookup", "C08", "minerals.py", 'params["phase_assemblage"].index(self.phase)\n                ]', "int(self.phase)\n                ]")
-m("c08_shared_state", "C08", "minerals.py", "    fractions: list = field(default_factory=list)\n    orientations: list = field(default_factory=list)", "    fractions: list = field(default_factory=list)\n    orientations: list = field(default_factory=list)\n    _cache = {}")
+m("c08_shared_cache", "C08", "minerals.py", '                volume_fraction = params["phase_fractions"][\n                    params["phase_assemblage"].index(self.phase)\n                ]', '                volume_fraction = globals().setdefault("_VF_CACHE", {}).setdefault(id(params), params["phase_fractions"][\n                    params["phase_assemblage"].index(self.phase)\n                ])')
 # C09 ----------------------------------------------------------------------------------
 m("c09_invert_mask", "C09", "utils.py", "mask = fractions < (gbs_threshold / n_grains)", "mask = fractions > (gbs_threshold / n_grains)")
 m("c09_floor_chi", "C09", "utils.py", "fractions[mask] = gbs_threshold / n_grains", "fractions[mask] = gbs_threshold")
